@@ -133,7 +133,12 @@ class Spec:
                 res = o.result(c, E)
         else:
             res = o.result(c, E) if o.result is not None else NONE
-        for lbl, b in o.post(c, E, res):
+        c.in_apply = getattr(c, 'in_apply', 0) + 1
+        try:
+            posts = list(o.post(c, E, res))
+        finally:
+            c.in_apply -= 1
+        for lbl, b in posts:
             if b is False:
                 # a contract that cannot be satisfied at a call site would silently end the path
                 raise Unsupported('contract of %s: outcome %s has no satisfiable result here (%s)'
